@@ -1,125 +1,317 @@
 import PdfVerif.Model.HISReader
+import PdfVerif.Props.C04hisc
 import PdfVerif.Props.C02fioc
-import PdfVerif.Lemmas.C01Defs
+import PdfVerif.Props.C04hisb
+import PdfVerif.Lemmas.C04ParA
 /-!
 # C04 (part 6) — an object-stream member written as an indirect reference reads as that reference
 
-Library HEAD 444f7d4 (`referenceTail` in reader.go): `getFromObjStm` applies the `n g R` look-ahead
-to a member that `ReadObject` returned as an integer.  `referenceTail_spec`: for every object
-number and generation in range and every conforming spelling of the tail (any white space, the
-generation in decimal, any white space, `R`, then the end of the window or a non-regular byte)
-the look-ahead recognises the reference; `memberValue_ref`: so does the member look-ahead when
-the window is not cut short by the next member.
+Library HEAD 7ec872d (`scanner.readReferenceTail`): `getFromObjStm` applies the `n g R` look-ahead
+of the other reference readers to a member that `ReadObject` returned as an integer — white
+space AND comments, `ReadInteger`, white space and comments, `R`, inside the member's extent.
+
+* `readReferenceTail_spec`: for every object number and generation in range, ANY white space and
+  comments (the grammar `WsR` of Spec/HISGrammar.lean) before and after the generation, however
+  long (there is no window any more), the look-ahead recognises the reference — when the `R` ends
+  before the next member and is followed by the end of the data or a non-regular byte, or ends
+  exactly where the next member starts.
+* `memberValue_ref`: the member look-ahead for the last member of a stream.
+* `readReferenceTail_topTail` + `readIndirect_topTail`: the member look-ahead and the top-level reader
+  `readIndirect` run the SAME function `topTail` (generation, white space, `R`) on the bytes behind
+  the integer; a member is a reference exactly if the top-level tail parse succeeds on the same bytes,
+  ends inside the member's extent, and the numbers are in range.
+* signs, leading zeros, `0R`, and the rejected tails, as `decide` examples.
 -/
 namespace PdfVerif.C04hisf
 open PdfVerif PdfVerif.HIS
+open PdfVerif.Spec.Grammar (WsR isWhite)
 
-theorem spanBy_append (p : Nat → Bool) : ∀ (a b : Bytes), (∀ x ∈ a, p x = true) →
-    (match b with | [] => True | c :: _ => p c = false) → spanBy p (a ++ b) = (a, b) := by
-  intro a
-  induction a with
-  | nil =>
-    intro b _ hb
-    cases b with
-    | nil => rfl
-    | cons c cs => simp only [List.nil_append, spanBy]; simp at hb; simp [hb]
-  | cons x xs ih =>
-    intro b ha hb
-    have hx : p x = true := ha x (by simp)
-    simp only [List.cons_append, spanBy, hx, if_true]
-    rw [ih b (fun y hy => ha y (by simp [hy])) hb]
+theorem readInt_eq (inp : Bytes) : HIS.readInt inp = FIO.readIntegerE inp := by
+  unfold HIS.readInt FIO.readIntegerE
+  rfl
 
-theorem space_lt (c : Nat) (h : isSpace c = true) : c < 256 := by
-  by_cases hc : c < 256
-  · exact hc
-  · have : Gen.scanner_class.getD c 0 = 0 := by simp [Array.getD, C01L.class_size, hc]
-    simp [isSpace, classOf, this, Gen.scanner_space] at h
+theorem digit_stops (c : Nat) (t : Bytes) (h : isDigit c = true) : C04hisc.StopsWs (c :: t) := by
+  have hlt := C02fioc.isDigit_lt c h
+  have hf := C02fioc.digit_facts c hlt h
+  refine ⟨hlt, ?_, ?_⟩
+  · rw [← (C04hisc.class_agree c hlt).1]; exact hf.2
+  · simpa using hf.1
 
-theorem space_table : ∀ c, c < 256 → isSpace c = true → isDigit c = false ∧ c ≠ 82 := by decide +kernel
-
-theorem digit_not_space (c : Nat) (h : isDigit c = true) : isSpace c = false :=
-  (C02fioc.digit_facts c (C02fioc.isDigit_lt c h) h).2
-
-/-- **`referenceTail` recognises every conforming tail of a reference.** -/
-theorem referenceTail_spec (a : Int) (g : Nat) (ws1 ws2 tail : Bytes)
+/-- **`readReferenceTail` recognises every conforming tail of a reference** — any white space and
+comments `w1`, the generation in decimal, any white space and comments `w2`, `R` — in both
+situations the code distinguishes: the `R` ends before the limit (or there is none) and is followed
+by the end of the data or a non-regular byte; or the `R` ends exactly at the limit. -/
+theorem readReferenceTail_spec (pre w1 w2 tail : Bytes) (a : Int) (g : Nat) (endOff : Option Nat)
+    (hw1 : WsR w1) (hw2 : WsR w2)
     (ha : 0 ≤ a ∧ a < Gen.his_xref_maxXRefSize) (hg : g ≤ Gen.his_xref_maxGeneration)
-    (h1 : ws1 ≠ [] ∧ ∀ x ∈ ws1, isSpace x = true) (h2 : ws2 ≠ [] ∧ ∀ x ∈ ws2, isSpace x = true)
-    (ht : match tail with | [] => True | c :: _ => isRegular c = false) :
-    referenceTail a (ws1 ++ (FIO.decOf g ++ (ws2 ++ 82 :: tail))) = some (a.toNat, g) := by
+    (hend : match endOff with
+      | none => (match tail with | [] => True | c :: _ => isRegular c = false)
+      | some e => (pre ++ (w1 ++ (FIO.decOf g ++ (w2 ++ [82])))).length = e ∨
+          ((pre ++ (w1 ++ (FIO.decOf g ++ (w2 ++ [82])))).length < e ∧
+            (match tail with | [] => True | c :: _ => isRegular c = false))) :
+    readReferenceTail (pre ++ (w1 ++ (FIO.decOf g ++ (w2 ++ 82 :: tail)))) pre.length endOff a = some (a.toNat, g) := by
   obtain ⟨hall, hval, hne, hlen⟩ := C02fioc.decOf_spec g 5 (by simp [Gen.his_xref_maxGeneration] at hg; omega) (by omega)
-  have hdig : ∀ x ∈ FIO.decOf g, isDigit x = true := fun x hx => by simpa using (List.all_eq_true.mp hall) x hx
   obtain ⟨d0, dt, hd0⟩ : ∃ d t, FIO.decOf g = d :: t := by
     cases h : FIO.decOf g with | nil => exact absurd h hne | cons d t => exact ⟨d, t, rfl⟩
-  obtain ⟨w0, wt, hw0⟩ : ∃ d t, ws2 = d :: t := by
-    cases h : ws2 with | nil => exact absurd h h2.1 | cons d t => exact ⟨d, t, rfl⟩
-  have s1 : spanBy isSpace (ws1 ++ (FIO.decOf g ++ (ws2 ++ 82 :: tail))) = (ws1, FIO.decOf g ++ (ws2 ++ 82 :: tail)) := by
-    apply spanBy_append _ _ _ h1.2
-    rw [hd0]; exact digit_not_space d0 (hdig d0 (by simp [hd0]))
-  have s2 : spanBy isDigit (FIO.decOf g ++ (ws2 ++ 82 :: tail)) = (FIO.decOf g, ws2 ++ 82 :: tail) := by
-    apply spanBy_append _ _ _ hdig
-    rw [hw0]
-    have := h2.2 w0 (by simp [hw0])
-    exact (space_table w0 (space_lt w0 this) this).1
-  have s3 : spanBy isSpace (ws2 ++ 82 :: tail) = (ws2, 82 :: tail) := by
-    apply spanBy_append _ _ _ h2.2
-    show isSpace 82 = false
-    decide +kernel
-  have e1 : ws1.isEmpty = false := by cases ws1 with | nil => exact absurd rfl h1.1 | cons _ _ => rfl
-  have e2 : (FIO.decOf g).isEmpty = false := by rw [hd0]; rfl
-  have e3 : ws2.isEmpty = false := by rw [hw0]; rfl
-  have e4 : ¬ ((FIO.decOf g).length > 6) := by omega
-  have hrange : (decide (a < 0) || decide (a ≥ (Gen.his_xref_maxXRefSize : Nat)) || decide (g > Gen.his_xref_maxGeneration)) = false := by
+  have hd0d : isDigit d0 = true := by
+    have := (List.all_eq_true.mp hall) d0 (by simp [hd0]); simpa using this
+  -- white space, the generation, white space, R
+  have s1 : skipWS (w1 ++ (FIO.decOf g ++ (w2 ++ 82 :: tail))) = (FIO.decOf g ++ (w2 ++ 82 :: tail), false) := by
+    have := C04hisc.ws_any_spelling w1 hw1 (FIO.decOf g ++ (w2 ++ 82 :: tail)) (by rw [hd0]; exact digit_stops d0 _ hd0d)
+    rw [this, hd0]; rfl
+  have hnumend : C02fioc.NumEnd (w2 ++ 82 :: tail) := by
+    cases hw2 with
+    | nil => simp [C02fioc.NumEnd, isDigit]
+    | white c w hc _ =>
+      have hlt := C04hisc.white_lt c hc
+      have hsp : isSpace c = true := by rw [(C04hisc.class_agree c hlt).1]; exact hc
+      show isDigit c = false
+      cases hdc : isDigit c with
+      | false => rfl
+      | true => have := (C02fioc.digit_facts c hlt hdc).2; rw [hsp] at this; cases this
+    | comment body eol w _ _ _ => simp [C02fioc.NumEnd, isDigit]
+  have s2 : readInt (FIO.decOf g ++ (w2 ++ 82 :: tail)) = .ok ((g : Int), w2 ++ 82 :: tail) := by
+    rw [readInt_eq]
+    exact C02fioc.readIntegerE_decOf g (by simp [Gen.his_xref_maxGeneration] at hg; omega) _ hnumend
+  have s3 : skipWS (w2 ++ 82 :: tail) = (82 :: tail, false) := by
+    have h82 : C04hisc.StopsWs (82 :: tail) := ⟨by omega, by decide, by omega⟩
+    have := C04hisc.ws_any_spelling w2 hw2 (82 :: tail) h82
+    rw [this]; rfl
+  have hdrop : (pre ++ (w1 ++ (FIO.decOf g ++ (w2 ++ 82 :: tail)))).drop pre.length
+      = w1 ++ (FIO.decOf g ++ (w2 ++ 82 :: tail)) := C04hisb.drop_len_append _ _
+  have hpos : (pre ++ (w1 ++ (FIO.decOf g ++ (w2 ++ 82 :: tail)))).length - tail.length
+      = (pre ++ (w1 ++ (FIO.decOf g ++ (w2 ++ [82])))).length := by
     simp; omega
-  unfold referenceTail
-  cases tail with
-  | nil =>
-    simp only [s1, s2, s3, e1, e2, e3, e4, hval, hrange, Bool.false_eq_true, if_false, decide_false, Bool.or_self,
-      Bool.not_true]
-  | cons c t =>
-    simp only at ht
-    simp only [s1, s2, s3, e1, e2, e3, e4, hval, hrange, ht, Bool.false_eq_true, if_false, decide_false, Bool.or_self,
-      Bool.not_true, Bool.not_false]
+  unfold readReferenceTail
+  simp only [hdrop, s1, s2, s3, hpos]
+  cases endOff with
+  | none =>
+    simp only at hend
+    cases tail with
+    | nil => simp [ha.1, ha.2, hg]
+    | cons c t => simp only at hend; simp [hend, ha.1, ha.2, hg]
+  | some e =>
+    simp only at hend
+    rcases hend with heq | ⟨hlt, hfol⟩
+    · simp only [List.length_append, List.length_cons, List.length_nil] at heq
+      simp [ha.1, ha.2, hg]
+      exact ⟨by omega, fun h => by omega⟩
+    · simp only [List.length_append, List.length_cons, List.length_nil] at hlt
+      cases tail with
+      | nil => simp [ha.1, ha.2, hg]; omega
+      | cons c t => simp only at hfol; simp [hfol, ha.1, ha.2, hg]; omega
 
-/-- the member look-ahead on an integer member whose tail is a conforming reference tail, when no
-    later member starts inside the 64-byte window (in particular for the last member) -/
-theorem memberValue_ref (data : Bytes) (offs : List Nat) (target memberEnd : Nat) (a : Int) (g : Nat)
-    (ws1 ws2 tail : Bytes) (hlater : offs.filter (fun x => x > target) = [])
-    (hdata : data.drop memberEnd = ws1 ++ (FIO.decOf g ++ (ws2 ++ 82 :: tail)))
-    (hfit : (ws1 ++ (FIO.decOf g ++ (ws2 ++ [82]))).length < 64)
+/-- the member look-ahead on the last member of an object stream (no later offset): an integer
+    followed by any conforming tail is the reference -/
+theorem memberValue_ref (pre w1 w2 tail : Bytes) (offs : List Nat) (target : Nat) (a : Int) (g : Nat)
+    (hlater : offs.filter (fun x => x > target) = [])
+    (hw1 : WsR w1) (hw2 : WsR w2)
     (ha : 0 ≤ a ∧ a < Gen.his_xref_maxXRefSize) (hg : g ≤ Gen.his_xref_maxGeneration)
-    (h1 : ws1 ≠ [] ∧ ∀ x ∈ ws1, isSpace x = true) (h2 : ws2 ≠ [] ∧ ∀ x ∈ ws2, isSpace x = true)
     (ht : match tail with | [] => True | c :: _ => isRegular c = false) :
-    memberValue data offs target memberEnd a = .ref a.toNat g := by
+    memberValue (pre ++ (w1 ++ (FIO.decOf g ++ (w2 ++ 82 :: tail)))) offs target pre.length a = .ref a.toNat g := by
   unfold memberValue
   simp only [hlater]
-  have h64 : ¬ ((64 : Int) ≤ 0) := by omega
-  simp only [h64, if_false, hdata]
-  -- the window holds the whole tail and at least one byte behind `R` (or the data end there)
-  have htake : ∃ tail', (ws1 ++ (FIO.decOf g ++ (ws2 ++ 82 :: tail))).take (64 : Int).toNat
-      = ws1 ++ (FIO.decOf g ++ (ws2 ++ 82 :: tail')) ∧ (match tail' with | [] => True | c :: _ => isRegular c = false) := by
-    have e : ws1 ++ (FIO.decOf g ++ (ws2 ++ 82 :: tail)) = (ws1 ++ (FIO.decOf g ++ (ws2 ++ [82]))) ++ tail := by
-      simp [List.append_assoc]
-    refine ⟨tail.take (64 - (ws1 ++ (FIO.decOf g ++ (ws2 ++ [82]))).length), ?_, ?_⟩
-    · rw [e, List.take_append]
-      have : (64 : Int).toNat = 64 := rfl
-      rw [this, List.take_of_length_le (by omega)]
-      simp [List.append_assoc]
-    · cases tail with
-      | nil => simp
-      | cons c t =>
-        have : 64 - (ws1 ++ (FIO.decOf g ++ (ws2 ++ [82]))).length = (64 - (ws1 ++ (FIO.decOf g ++ (ws2 ++ [82]))).length - 1) + 1 := by omega
-        rw [this, List.take_succ_cons]
-        exact ht
-  obtain ⟨tail', hk, ht'⟩ := htake
-  rw [hk, referenceTail_spec a g ws1 ws2 tail' ha hg h1 h2 ht']
+  rw [readReferenceTail_spec pre w1 w2 tail a g none hw1 hw2 ha hg (by simpa using ht)]
 
--- the edge cases of the fix, on the model
-example : referenceTail 2 (bytesOfString " 0 R") = some (2, 0) := by decide +kernel
-example : referenceTail 2 (bytesOfString "  0\nR ") = some (2, 0) := by decide +kernel
-example : referenceTail 2 (bytesOfString " 0 Rx") = none := by decide +kernel
-example : referenceTail 2 (bytesOfString " 0") = none := by decide +kernel
-example : referenceTail 2 (bytesOfString " 65536 R") = none := by decide +kernel
-example : referenceTail 2 (bytesOfString " 0000001 R") = none := by decide +kernel
-example : referenceTail 2 (bytesOfString "0 R") = none := by decide +kernel
+
+/-! ## the member look-ahead IS the look-ahead of the top-level reader
+
+`topTail` is the text of the look-ahead in `HIS.readIndirect` (the branch taken for an integer value
+that is not followed by `endobj`), up to and including the `R`; `readIndirect_topTail` proves
+that `readIndirect` is that function followed by its range check, and `readReferenceTail_topTail`
+that the member look-ahead is the same function followed by the extent test and the same range
+check.  So a tail is a reference for a member exactly if the top-level reader parses it as one
+on the same bytes and it respects the member's extent. -/
+
+/-- generation, white space, `R` -/
+def topTail (r : Bytes) : Except Err (Int × Bytes) :=
+  match HIS.readInt r with
+  | .error e => .error e
+  | .ok (b, r) =>
+    match skipWS r with
+    | (_, true) => .error .eof
+    | (82 :: r, false) => .ok (b, r)
+    | _ => .error .malformed
+
+theorem readInt_skip (inp : Bytes) : HIS.readInt (skipWS inp).1 = HIS.readInt inp := by
+  unfold HIS.readInt
+  rw [C04L.skipWS_idem]
+
+theorem readInt_eof (inp r : Bytes) (h : skipWS inp = (r, true)) : HIS.readInt inp = .error .eof := by
+  unfold HIS.readInt
+  rw [h]
+
+theorem readReferenceTail_topTail (data : Bytes) (memberEnd : Nat) (endOff : Option Nat) (a : Int) :
+    readReferenceTail data memberEnd endOff a =
+      match topTail (data.drop memberEnd) with
+      | .error _ => none
+      | .ok (b, r4) =>
+        let pos := data.length - r4.length
+        let tooFar : Bool := match endOff with | some e => pos > e | none => false
+        let mustLook : Bool := match endOff with | some e => pos < e | none => true
+        let follows : Bool := match r4 with | [] => true | c :: _ => !isRegular c
+        if tooFar then none
+        else if mustLook && !follows then none
+        else if a < 0 || a ≥ Gen.his_xref_maxXRefSize || b < 0 || b > Gen.his_xref_maxGeneration then none
+        else some (a.toNat, b.toNat) := by
+  unfold readReferenceTail topTail
+  cases h : skipWS (data.drop memberEnd) with
+  | mk r1 eof =>
+    cases eof with
+    | true => simp only [readInt_eof _ _ h]
+    | false =>
+      have : HIS.readInt r1 = HIS.readInt (data.drop memberEnd) := by
+        have := readInt_skip (data.drop memberEnd); rw [h] at this; exact this
+      simp only [this]
+      cases HIS.readInt (data.drop memberEnd) with
+      | error e => rfl
+      | ok v =>
+        obtain ⟨b, r2⟩ := v
+        simp only []
+        cases skipWS r2 with
+        | mk r3 e2 =>
+          cases e2 with
+          | true => rfl
+          | false =>
+            cases r3 with
+            | nil => rfl
+            | cons c t =>
+              by_cases hc : c = 82
+              · subst hc; rfl
+              · split
+                · simp_all
+                · simp_all
+                · split
+                  · rfl
+                  · rename_i heq; exfalso; split at heq <;> simp_all
+
+/-- `HIS.readIndirect` with its reference look-ahead written as a call of `topTail` -/
+def readIndirectT (file : Bytes) (pos : Nat) (getInt : Obj → Except Err Int) (scalarOnly : Bool) :
+    Except Err Indirect :=
+  match HIS.readInt (file.drop pos) with
+  | .error e => .error e
+  | .ok (number, r) =>
+  match HIS.readInt r with
+  | .error e => .error e
+  | .ok (generation, r) =>
+  match skipWS r with
+  | (_, true) => .error .eof
+  | (r, false) =>
+  if !startsWith r kwObj then .error .malformed else
+  match skipWS (r.drop 3) with
+  | (_, true) => .error .eof
+  | (r, false) =>
+  if number < 0 || number ≥ Gen.his_xref_maxXRefSize || generation < 0 || generation > Gen.his_xref_maxGeneration then
+    .error .malformed
+  else
+  match readObjectTop file (file.length - r.length) getInt scalarOnly with
+  | .error e => .error e
+  | .ok (v, p) =>
+  match skipWS (file.drop p) with
+  | (_, true) => .error .eof
+  | (r, false) =>
+  let finish (v : Val) (r : Bytes) : Except Err Indirect :=
+    if startsWith r kwEndobj then
+      .ok { val := v, num := number.toNat, gen := generation.toNat, endPos := file.length - r.length + 6 }
+    else .error .malformed
+  match v with
+  | .obj (.int a) =>
+    if startsWith r kwEndobj then finish v r else
+    match topTail r with
+    | .error e => .error e
+    | .ok (b, r) =>
+      (match skipWS r with
+       | (_, true) => .error .eof
+       | (r, false) =>
+         if a < 0 || a ≥ Gen.his_xref_maxXRefSize || b < 0 || b > Gen.his_xref_maxGeneration then .error .malformed
+         else finish (.obj (.ref a.toNat b.toNat)) r)
+  | _ => finish v r
+
+/-- the top-level reader's look-ahead is `topTail` -/
+theorem readIndirect_topTail (file : Bytes) (pos : Nat) (getInt : Obj → Except Err Int) (scalarOnly : Bool) :
+    HIS.readIndirect file pos getInt scalarOnly = readIndirectT file pos getInt scalarOnly := by
+  unfold HIS.readIndirect readIndirectT topTail
+  cases HIS.readInt (file.drop pos) with
+  | error e => rfl
+  | ok v1 =>
+  obtain ⟨number, r1⟩ := v1
+  simp only []
+  cases HIS.readInt r1 with
+  | error e => rfl
+  | ok v2 =>
+  obtain ⟨generation, r2⟩ := v2
+  simp only []
+  cases skipWS r2 with
+  | mk r3 e3 =>
+  cases e3 with
+  | true => rfl
+  | false =>
+  simp only []
+  split
+  · rfl
+  cases skipWS (r3.drop 3) with
+  | mk r4 e4 =>
+  cases e4 with
+  | true => rfl
+  | false =>
+  simp only []
+  split
+  · rfl
+  cases readObjectTop file (file.length - r4.length) getInt scalarOnly with
+  | error e => rfl
+  | ok vp =>
+  obtain ⟨v, p⟩ := vp
+  simp only []
+  cases skipWS (file.drop p) with
+  | mk r5 e5 =>
+  cases e5 with
+  | true => rfl
+  | false =>
+  simp only []
+  cases v with
+  | stream d st ln => rfl
+  | obj o =>
+  cases o with
+  | int a =>
+    simp only []
+    split
+    · rfl
+    cases HIS.readInt r5 with
+    | error e => rfl
+    | ok v6 =>
+    obtain ⟨b, r6⟩ := v6
+    simp only []
+    cases skipWS r6 with
+    | mk r7 e7 =>
+    cases e7 with
+    | true => rfl
+    | false =>
+    cases r7 with
+    | nil => rfl
+    | cons c t =>
+      by_cases hc : c = 82
+      · subst hc; rfl
+      · simp only []
+        split
+        · simp_all
+        · split
+          · rename_i heq; split at heq <;> simp_all
+          · rename_i heq; exfalso; split at heq <;> simp_all
+  | _ => rfl
+
+-- the spellings of the repaired look-ahead, on the model (data = the integer "2" and its tail)
+example : readReferenceTail (bytesOfString "2 0 R") 1 none 2 = some (2, 0) := by decide +kernel
+example : readReferenceTail (bytesOfString "2 %c\n 0 R") 1 none 2 = some (2, 0) := by decide +kernel
+example : readReferenceTail (bytesOfString "2 +0 R") 1 none 2 = some (2, 0) := by decide +kernel
+example : readReferenceTail (bytesOfString "2 -0 R") 1 none 2 = some (2, 0) := by decide +kernel
+example : readReferenceTail (bytesOfString "2 0000000 R") 1 none 2 = some (2, 0) := by decide +kernel
+example : readReferenceTail (bytesOfString "2 0R") 1 none 2 = some (2, 0) := by decide +kernel
+example : readReferenceTail (bytesOfString "2 0 Rx") 1 none 2 = none := by decide +kernel
+example : readReferenceTail (bytesOfString "2 R") 1 none 2 = none := by decide +kernel
+example : readReferenceTail (bytesOfString "2 65536 R") 1 none 2 = none := by decide +kernel
+example : readReferenceTail (bytesOfString "2 0") 1 none 2 = none := by decide +kernel
+-- the next member starts right behind `R` (offset 5), or inside the tail (offset 3)
+example : readReferenceTail (bytesOfString "2 0 R57") 1 (some 5) 2 = some (2, 0) := by decide +kernel
+example : readReferenceTail (bytesOfString "2 0 R") 1 (some 3) 2 = none := by decide +kernel
 
 end PdfVerif.C04hisf
